@@ -47,6 +47,8 @@ ACCEPTOR = {
                   ('U', 'RLRP', ()), ('FIN',)],
     'pipelined': [('P', [('RQ',)]), ('U', 'AC', ()), ('P', [('MSG', 1, 0, [1]), ('MSG', 1, 1, [1, 1]), ('MSG', 1, 0, [1]), ('RLRQ',)]),
                   ('U', 'RLRP', ()), ('FIN',)],
+    'early-abort': [('P', [('RQ',), ('AB', [0, 0])])],
+    'early-data': [('P', [('RQ',), ('MSG', 1, 0, [1])]), ('FIN',)],
     'release-data': [('P', [('RQ',)]), ('U', 'AC', ()), ('U', 'RLRQ', ()), ('P', [('MSG', 1, 1, [2]), ('RLRP',)])],
 }
 
@@ -62,6 +64,18 @@ REQUESTOR = {
     'find': [('U', 'RQ', ()), ('P', [('AC',)]), ('G', 2), ('P', [('MSG', 1, 1, [1, 1]), ('MSG', 1, 1, [2]), ('MSG', 1, 0, [1])]),
              ('U', 'RLRQ', ()), ('P', [('RLRP',)])],
 }
+
+
+def pdu_boundaries(script):
+    """Offsets in the peer's stream at which a PDU ends (excluding the end of the stream)."""
+    from . import wire_ref
+    total = peer_stream(script)
+    pdus, _ = wire_ref.split_stream(total)
+    out, pos = [], 0
+    for b in pdus[:-1]:
+        pos += len(b)
+        out.append(pos)
+    return tuple(out)
 
 
 def peer_stream(script):
@@ -87,11 +101,12 @@ def play(script, req, cuts=(), dribble=False, waiting=False, fin_at=None, stop_s
           natural one after each peer write); dribble: one byte per segment.
     waiting: the first peer write (acceptor) is already in the socket when the provider starts.
     fin_at: the peer disconnects after exactly this many bytes of its stream (and sends nothing more).
-    mutate: (index of peer PDU, function bytes->bytes, grey?) applied to that PDU before sending.
+    mutate: (index of peer PDU, fn(frame, bytes) -> [(frame or None, bytes)]) replaces that PDU.
     Returns a Played with .run (Run), .outcome."""
     run = Run(req)
     ids = {'m': 0}
     sent = 0
+    written = 0
     pdu_index = 0
     cuts = sorted(set(cuts))
     out = Played()
@@ -125,15 +140,6 @@ def play(script, req, cuts=(), dribble=False, waiting=False, fin_at=None, stop_s
                     if sent < c < sent + n:
                         n = c - sent
                         break
-            if fin_at is not None and sent + n >= fin_at:
-                n = fin_at - sent
-                if n > 0:
-                    run.arrive(n)
-                    sent += n
-                run.transit = bytearray()
-                run.peer_fin()
-                out.fin_done = True
-                return settle() and False
             run.arrive(n)
             sent += n
             if not settle():
@@ -153,20 +159,30 @@ def play(script, req, cuts=(), dribble=False, waiting=False, fin_at=None, stop_s
                 for spec in op[1]:
                     for rec, b in mk(spec, ids):
                         if mutate is not None and mutate[0] == pdu_index:
-                            b2 = mutate[1](b)
-                            rec = dict(rec, len=len(b2), grey=True) if mutate[2] == 'grey' else mutate[2](rec, b2)
-                            b = b2
+                            frames.extend(mutate[1](rec, b))       # list of (frame or None, bytes)
+                        elif mutate is not None and pdu_index > mutate[0]:
+                            pass            # the mutated PDU is the last thing the peer writes
+                        else:
+                            frames.append((rec, b))
                         pdu_index += 1
-                        frames.append((rec, b))
                 s = run._cur_sock()
                 if s is None or s.closed or run.p.dul_socket is None:
                     continue          # nothing can be sent to a closed connection
-                if fin_at is not None and fin_at <= sent:
+                if fin_at is not None and fin_at <= written:
                     run.peer_fin()
                     out.fin_done = True
                     settle()
                     break
-                run.peer_send(frames)
+                blob_len = sum(len(b) for _, b in frames)
+                if fin_at is not None and written + blob_len >= fin_at:
+                    # the peer dies after fin_at bytes of its stream: the rest is never written
+                    written += run.peer_send(frames, limit=fin_at - written)
+                    run.peer_fin()
+                    out.fin_done = True
+                    deliver()
+                    settle()
+                    break
+                written += run.peer_send(frames)
                 if first and waiting and not req:
                     first = False
                 if not deliver():
